@@ -58,7 +58,7 @@ var targets = []string{
 var jobMethods = map[string]bool{"importPcapJob": true, "updateTagJob": true, "mergeIndexesJob": true, "convertStreamJob": true}
 
 type stats struct {
-	Creates, Spawned, JobBegin, JobPost, JobYield, Clock, Ticker, MapRange, MapRangeSkipped, IOPoints, NumCPU, KnobSnap, KnobCleanup, WorkerIdle int
+	Creates, Spawned, JobBegin, JobPost, JobYield, Unlocked, Clock, Ticker, MapRange, MapRangeSkipped, IOPoints, NumCPU, KnobSnap, KnobCleanup, WorkerIdle int
 }
 
 func fail(format string, a ...any) {
@@ -459,6 +459,17 @@ func (rw *rewriter) rewriteList(list []ast.Stmt) []ast.Stmt {
 			rw.st.IOPoints++
 		}
 		outl = append(outl, s)
+		// a lock of the converter cache released by a statement (not by defer):
+		// from here on another caller may get in before this one is finished
+		if es, ok := inner.(*ast.ExprStmt); ok && rw.pkg == "internal/index/converters" {
+			if call, ok := es.X.(*ast.CallExpr); ok {
+				if r, n := rw.recvType(call); (r == "*sync.RWMutex" || r == "*sync.Mutex") && (n == "Unlock" || n == "RUnlock") {
+					pos := rw.fset.Position(s.Pos())
+					outl = append(outl, &ast.ExprStmt{X: rw.rt("Unlocked", strLit(fmt.Sprintf("%s:%d", rw.relName, pos.Line)))})
+					rw.st.Unlocked++
+				}
+			}
+		}
 	}
 	return outl
 }
